@@ -77,7 +77,15 @@ def gen_case(rng, tier, idx):
         unit = tf_s or step
         s = unit * rng.choice([2, 3, 4])
         member_tf = f"S{s}" if s % 60 else (f"T{s // 60}" if s % 3600 else f"H{s // 3600}")
-    return {"rows": rows, "tf": tf, "entry": entry, "member_tf": member_tf, "schedule": sch}
+    lifespan = None
+    if entry in ("indicator", "hexital") and rng.random() < 0.15 and n >= 30:
+        # a lifespan must not change what the retained candles look like: >= 6 buckets stay, so the open bucket keeps its predecessor
+        unit = tf_s or step
+        lifespan = rng.randint(6, 12) * unit + rng.choice([0, 1, unit // 2])
+        rows = streams.make_rows(rng, n, "walk", step, "regular", tf_s)
+        sch["preload"] = rng.choice([0, 1, n // 2, n - 5])
+        sch["chunks"] = schedules.rand_chunks(rng, n - sch["preload"], style=rng.choice(["singles", "random", "two"]))
+    return {"rows": rows, "tf": tf, "entry": entry, "member_tf": member_tf, "schedule": sch, "lifespan_s": lifespan}
 
 
 def ohlc_close(a, b):
@@ -92,6 +100,11 @@ def run_case(case):
     viol = []
     c0 = dict(_conv)
     kw = {"timeframe": tf} if tf else {}
+    life = case.get("lifespan_s")
+    if life:
+        from datetime import timedelta
+        kw["candles_lifespan"] = timedelta(seconds=life)
+        stats["lifespan_cases"] = 1
 
     def lists(obj):
         if entry == "indicator":
@@ -107,6 +120,13 @@ def run_case(case):
             want = heikin_ashi(base)
             stats["snapshots_compared"] = stats.get("snapshots_compared", 0) + 1
             got = [(vars(c).get("timestamp"), c.open, c.high, c.low, c.close, c.volume) for c in cs]
+            if life:
+                # retained window: the tail of the reference (which candles are retained is C15's business)
+                if not got or len(got) > len(want) or [g[0] for g in got] != [w[0] for w in want[len(want) - len(got):]]:
+                    stats["lifespan_window_mismatch_left_to_C15"] = stats.get("lifespan_window_mismatch_left_to_C15", 0) + 1
+                    return True
+                base = base[len(base) - len(got):]
+                want = want[len(want) - len(got):]
             if len(got) != len(want):
                 viol.append({"monitor": "online-HA-reference", "sig": f"C11|candle-count|{entry}|{'member' if lname not in ('', 'default') else 'main'}",
                              "detail": f"{where} list {lname!r}: {len(got)} candles, reference {len(want)}"})
@@ -125,6 +145,8 @@ def run_case(case):
                 if not vars(cs[i]).get("_tag"):
                     viol.append({"monitor": "tag", "sig": f"C11|untagged|{entry}", "detail": f"{where} list {lname!r} candle {i} has no tag"})
                     return False
+            if life:
+                continue  # readings under a lifespan are C15's business (look-back precondition)
             # readings on converted values
             closes = [w[4] for w in want]
             ref = ema_rounded(closes, 3 if rname.startswith("EMA_3") else 2)
